@@ -235,15 +235,5 @@ let () =
       let (ts, rest) = parse_items ws in
       if rest <> [] then failwith ("unbalanced tokens: " ^ body);
       let m = model_obs ts and sp = spec_obs ts in
-      (* attribution to the known finding other-literal-starts-statement: the model with the
-         suggested repair (LeftBindingPower returns 0 for every other type) equals the specification *)
-      let tag =
-        if sp = "-" || sp = m || infix_lbp.lbp_other <> None then ""
-        else begin
-          cur_kk := { infix_lbp with lbp_other = Some Z0 };
-          let m' = model_obs ts in
-          cur_kk := infix_lbp;
-          if m' = sp then "other-literal-starts-statement" else ""
-        end in
-      Printf.printf "%s\t%s\t%s\t%s\n" id (esc_final m) (esc_final sp) tag
+      Printf.printf "%s\t%s\t%s\n" id (esc_final m) (esc_final sp)
     | _ -> failwith ("bad line: " ^ line))
